@@ -9,10 +9,12 @@ HInit == Init /\ hist = <<>>
 HNext == /\ Len(hist) < MaxLen
          /\ \/ \E t \in Timers : \E k \in {"shared", "local"} : Start(t, k) /\ hist' = Append(hist, Ev("start", t, k, FALSE))
             \/ \E t \in Timers : \E thr \in BOOLEAN :
-                 \/ Record(t)  /\ \E op \in {"observe_duration", "stop_and_record", "drop_timer"} : hist' = Append(hist, Ev(op, t, tm[t].kind, thr))
+                 \/ Record(t)  /\ \E op \in {"observe_duration", "stop_and_record", "drop_timer", "drop_timer_unwinding"} : hist' = Append(hist, Ev(op, t, tm[t].kind, thr))
                  \/ Discard(t) /\ hist' = Append(hist, Ev("stop_and_discard", t, tm[t].kind, thr))
             \/ ClosureShared /\ hist' = Append(hist, Ev("closure", "-", "shared", FALSE))
             \/ ClosureLocal  /\ hist' = Append(hist, Ev("closure", "-", "local", FALSE))
+            \/ ClosureSharedRe /\ hist' = Append(hist, Ev("closure_reenter", "-", "shared", FALSE))
+            \/ ClosureLocalRe  /\ hist' = Append(hist, Ev("closure_reenter", "-", "local", FALSE))
             \/ LocalFlush    /\ hist' = Append(hist, Ev("lflush", "-", "local", FALSE))
 HSpec == HInit /\ [][HNext]_<<vars, hist>>
 Emit == Len(hist) = MaxLen => PrintT(<<"REPLAY", ToJson(hist)>>)
